@@ -183,7 +183,8 @@ def parseKids : (fuel : Nat) â†’ (parent : YKw) â†’ XCtx â†’ Except YErr (XCtx Ã
       | .ok c2 => (parseKids f parent c2).map fun (c, l) => (c, s :: l)
 end
 
-/-- `yin_parse_extension_instance`, entered with `status == LYXML_ELEMENT`: the stored name and the child list -/
+/-- `yin_parse_extension_instance`, entered with `status == LYXML_ELEMENT`: the stored name and the child list.
+    Fuel: the length of the input behind the start-tag name (every element read costs 2 and is at least 4 bytes long). -/
 def parseExtInst (cx : XCtx) : Except YErr (XCtx Ã— Bytes Ã— List YStmt) :=
   match cx.pfx with
   | none => .error .invalid                -- "without the mandatory prefix"
@@ -198,7 +199,7 @@ def parseExtInst (cx : XCtx) : Except YErr (XCtx Ã— Bytes Ã— List YStmt) :=
         if c2.wsOnly then
           match ctxNext c2 with
           | .error e => .error e
-          | .ok c3 => (parseKids (c3.inp.length + 2) .ext c3).map fun (c, kids) => (c, name, attrs ++ kids)
+          | .ok c3 => (parseKids (cx.inp.length + 2) .ext c3).map fun (c, kids) => (c, name, attrs ++ kids)
         else if !c2.value.isEmpty then .error .invalid      -- "unexpected text content"
         else .ok (c2, name, attrs)
 
